@@ -27,7 +27,10 @@ func VerifSetDB(s *Store, db dbm.DB) {
 // the in-memory backend, which cannot be closed and reopened). The caller drops the node cache
 // and the package-global caches of mavl/db.
 func VerifRestart(old *Store) *Store {
-	n := &Store{BaseStore: old.BaseStore, treeCfg: old.treeCfg}
+	// a copy of the whole object (whatever fields the constructor set up), with a fresh set of pending trees
+	n := new(Store)
+	*n = *old
+	n.trees = nil
 	verifAlloc(&n.trees) // *sync.Map, or its instrumented counterpart when mavl.go is rewritten
 	mavl.InitGlobalMem(n.treeCfg)
 	return n
